@@ -31,6 +31,7 @@ type Profile struct {
 	Huge        float64 // probability of an 18-decimals asset
 	TakeRates   []string
 	ShortUnbond float64 // probability of a short unbonding time (maturities inside the run)
+	BoundaryTo  []string // preferred deadline kinds for boundary-aimed block gaps
 	Clean       map[string]bool // preconditions of open known findings the generator must avoid (clean mode)
 }
 
@@ -391,6 +392,9 @@ func (g *genState) genDt() DtSpec {
 	r := g.rng
 	if r.Chance(g.p.PBoundary) {
 		to := []string{"unbonding", "unbonding", "redelegation", "takerate", "takerate", "start", "decay"}[r.Intn(7)]
+		if len(g.p.BoundaryTo) > 0 {
+			to = g.p.BoundaryTo[r.Intn(len(g.p.BoundaryTo))]
+		}
 		off := []int64{-1, 0, 1, 0, 1, int64(time.Second)}[r.Intn(6)]
 		return DtSpec{To: to, Off: off, Ns: int64(time.Second) * int64(r.Range(1, 8))}
 	}
@@ -511,6 +515,23 @@ func profileFor(prop string) *Profile {
 		p.SameBlock = 0.7
 		p.PBoundary = 0.4
 		p.PSlash = 0.1
+	case "C10":
+		p.W["n_delegate"], p.W["n_undelegate"], p.W["n_redelegate"] = 14, 14, 5
+		p.W["unjail"] = 6
+		p.W["gov_update"] = 6
+		p.W["create_validator"] = 3
+		p.PSlash, p.PEvidence, p.PDowntime = 0.1, 0.04, 0.05
+		p.Inflation = 0.3
+		p.MaxOps = 3
+	case "C09":
+		p.TakeRates = []string{"0", "0.000001", "0.001", "0.5", "0.99", "0.1"}
+		p.BoundaryTo = []string{"takerate", "takerate", "takerate", "start", "unbonding"}
+		p.PBoundary = 0.45
+		p.PHalt = 0.08
+		p.Dust = 0.35
+		p.W["gov_update"], p.W["gov_params"] = 8, 5
+		p.W["redelegate"] = 6
+		p.PSlash, p.PEvidence, p.PDowntime = 0.02, 0.01, 0.01
 	case "C04":
 		p.TakeRates = []string{"0", "0.5", "0.99", "0.001", "0.5"}
 		p.PSlash = 0.12
